@@ -104,6 +104,10 @@ func CheckParenExpr(x js.Expr) js.Expr {
 	return x
 }
 
+func CheckHeaderExpr(x js.Expr) js.Expr { return x }
+
+func CheckHeaderStmt(s js.Stmt) js.Stmt { return s }
+
 // -----------------------------------------------------------------------------
 
 func AddrOf(v js.Expr) js.Expr {
